@@ -134,7 +134,11 @@ func crashed(g *G, r interface{}) {
 	buf := make([]byte, 4096)
 	buf = buf[:runtime.Stack(buf, false)]
 	w.mu.Lock()
-	w.Panics = append(w.Panics, fmt.Sprintf("%s: panic: %v\n%s", g.Name, r, buf))
+	who := "harness:" + g.Name
+	if g.Node != nil {
+		who = "node " + g.Node.Name + ": " + g.Name
+	}
+	w.Panics = append(w.Panics, fmt.Sprintf("%s: panic: %v\n%s", who, r, buf))
 	w.mu.Unlock()
 	w.logf("PANIC on %s: %v", g.Name, r)
 	if g.Node != nil {
@@ -296,7 +300,7 @@ func (w *World) trace(format string, a ...interface{}) {
 		w.Log("trace: "+format, a...)
 	}
 	if w.TraceOn {
-		s := fmt.Sprintf("%d ", int64(w.Now())) + fmt.Sprintf(format, a...)
+		s := fmt.Sprintf("%015d ", int64(w.Now())) + fmt.Sprintf(format, a...)
 		w.mu.Lock()
 		w.Trace = append(w.Trace, s)
 		w.mu.Unlock()
